@@ -76,6 +76,31 @@ def main():
     m = need("bevy_replicon_example_backend/src/tcp.rs", r"let mut header = \[0; (\d+)\];", "tcp header size")
     consts.append(("frameHeader", int(m.group(1)), "size of the tcp framing header (channel id + u16 length)"))
 
+    # --- FNV-1a constants from the fnv crate the repository is locked to, ProtocolPart discriminants
+    lock = read("Cargo.lock")
+    m = re.search(r'name = "fnv"\nversion = "([^"]+)"', lock)
+    if not m:
+        print("extract_consts: fnv not in Cargo.lock"); sys.exit(1)
+    import glob
+    cands = glob.glob(os.path.expanduser(f"~/.cargo/registry/src/*/fnv-{m.group(1)}/lib.rs"))
+    if not cands:
+        print("extract_consts: fnv source not found in the cargo registry"); sys.exit(1)
+    fsrc = open(cands[0]).read()
+    m1 = re.search(r"FnvHasher\(0x([0-9a-f]+)\)", fsrc)
+    m2 = re.search(r"hash = hash\.wrapping_mul\(0x([0-9a-f]+)\);", fsrc)
+    m3 = re.search(r"hash = hash \^ \(\*byte as u64\);\s*hash = hash\.wrapping_mul", fsrc)
+    if not (m1 and m2 and m3):
+        print("extract_consts: fnv crate no longer has the FNV-1a shape"); sys.exit(1)
+    consts.append(("fnvOffset", int(m1.group(1), 16), "FNV offset basis (crate fnv)"))
+    consts.append(("fnvPrime", int(m2.group(1), 16), "FNV prime (crate fnv)"))
+    m = need("src/shared/protocol.rs", r"#\[derive\(Hash\)\]\s*#\[repr\(u8\)\]\s*enum ProtocolPart \{(.*?)\n\}", "ProtocolPart enum")
+    variants = [v.strip().rstrip(",").split(" ")[0].split("{")[0] for v in m.group(1).split(",\n") if v.strip()]
+    expect = ["Replicate", "ReplicateBundle", "ClientEvent", "ClientTrigger", "ServerEvent", "ServerTrigger", "IndependentEvent", "IndependentTrigger"]
+    if variants != expect:
+        print(f"extract_consts: ProtocolPart variants changed: {variants}"); sys.exit(1)
+    need("src/shared/protocol.rs", r"fn hash<T>\(&mut self, part: ProtocolPart\) \{\s*part\.hash\(&mut self\.0\);\s*any::type_name::<T>\(\)\.hash\(&mut self\.0\);\s*\}", "ProtocolHasher::hash feeds part then type name")
+    consts.append(("protocolKinds", len(variants), "number of ProtocolPart variants (discriminants 0..n-1 in declaration order)"))
+
     out = ["/- GENERATED by tools/extract_consts.py from /repo on every run.  Do not edit. -/",
            "namespace Replicon.Consts", ""]
     for name, value, doc in consts:
